@@ -257,6 +257,9 @@ func (e *c07cEnv) tieRoundPrec(c *Ctx) {
 			if k != math.Trunc(k) {
 				return "notint"
 			}
+			if k == 0 {
+				return "0" // canonical: IEEE negative zero is the integer 0
+			}
 			return new(big.Float).SetFloat64(k).Text('f', 0)
 		})
 		c.Emit(fmt.Sprintf("ckks roundprec %d %s %d", coef, new(big.Int).Lsh(big.NewInt(1), uint(logS)).String(), lp), out)
